@@ -10,8 +10,15 @@ import (
 
 // VerifNewSchedule builds a Schedule directly from heap items (an arbitrary
 // pre-state for inductive-step harnesses in other packages).
+// The Schedule comes from the real constructor (empty list of JobConfigs), so
+// whatever else New sets up is set up here too; only the heap content is replaced.
 func VerifNewSchedule(items []*heap.Item, cfg Config, clk clock.Clock) *Schedule {
-	return &Schedule{jobConfigs: heap.New(items), cfg: cfg, clock: clk}
+	s, err := New(nil, WithConfigLoader(cfg), WithClock(clk))
+	if err != nil || s == nil {
+		panic("cronschedule.New failed on an empty list")
+	}
+	s.jobConfigs = heap.New(items)
+	return s
 }
 
 // VerifSearch exposes the heap priority of a key.
